@@ -5,9 +5,9 @@ from common import F, rs, vs, ms, dyadic, close, call, as_given
 from systems import gen_A, gen_K, gen_baseline, apply_K
 
 
-def cloud(rng, d, kind, whole=False):
+def cloud(rng, d, kind, whole=False, skew_bits=6):
     """point cloud of the given kind; whole=True: every coordinate is a whole number (a cloud a caller may write down with an
-    integer dtype)"""
+    integer dtype); skew_bits: the skewed kind stretches the first axis by 2^skew_bits and (non-whole) shrinks the last by the same"""
     if kind == "random":
         if whole:
             return dyadic(rng, 0, 12, 0, size=(int(rng.integers(d + 2, d + 10)), d))
@@ -20,9 +20,9 @@ def cloud(rng, d, kind, whole=False):
         return np.vstack([V, W @ V])
     if kind == "skewed":        # strongly anisotropic
         if whole:
-            P = dyadic(rng, 0, 10, 0, size=(d + 6, d)); P[:, 0] *= 64.0
+            P = dyadic(rng, 0, 10, 0, size=(d + 6, d)); P[:, 0] *= 2.0 ** skew_bits
             return P
-        P = dyadic(rng, 0, 4, 4, size=(d + 6, d)); P[:, 0] *= 64.0; P[:, -1] *= 1 / 64.0
+        P = dyadic(rng, 0, 4, 4, size=(d + 6, d)); P[:, 0] *= 2.0 ** skew_bits; P[:, -1] *= 2.0 ** -skew_bits
         return P
     if kind == "near_collinear":
         if whole:
@@ -56,14 +56,14 @@ def run(R):
     from scipy.spatial import ConvexHull
     qmc_events = []   # (case key, case, signature, hook events, requested n): row blocks / simplex indices of the QMC branch vs the Lean model
     n = 36 if R.tier == "quick" else 400
-    R.rule = ("point clouds in 2-4 dimensions (random, with many interior points, strongly skewed, nearly collinear; half of them "
+    R.rule = ("point clouds in 2-4 dimensions (random, with many interior points, strongly skewed -- axis ratio 2^12 or 2^20 --, nearly collinear; half of them "
               "with whole-number coordinates) handed in as float64 / integer dtype (whole-number clouds) / Fortran-ordered / "
               "strided arrays, and estimator systems (2-4 receptors, more sources than receptors) with and without l1; "
-              "n in {1,2,7,100,10^4}; engines None/Halton/Sobol/LHC given by name or (function) as a scipy QMCEngine instance; "
+              "n in {1,2,7,100,10^4,10^5}; engines None/Halton/Sobol/LHC given by name or (function) as a scipy QMCEngine instance; "
               "seeds given as int or numpy Generator. Predicates on dreye's samples: exact count, inside every facet of an "
               "independently computed hull (1e-9), identical arrays for identical seeds, the samples of a cloud do not depend on "
               "the representation (dtype / memory layout) its values were handed in (same seed, 1e-12), every l1 sample sums to "
-              "l1, and for the default engine with n = 10^4: sample mean vs exact centroid and half-space fractions vs exact "
+              "l1, and for the default engine with n >= 10^4: sample mean vs exact centroid and half-space fractions vs exact "
               "volume fractions at 6 sigma. Non-trivial: cloud with interior points or >= d+3 vertices and n >= 100.")
     for k in range(n):
         if not R.want(k):
@@ -97,9 +97,17 @@ def run(R):
             fn = lambda: est().sample_in_gamut(n=ns, seed=mkseed(), engine=engine, l1=l1)  # noqa: E731
         else:
             whole = bool(vrng.integers(2))
-            P = cloud(rng, d, ckind, whole)
+            # strength of the skew (axis ratio 2^12 or 2^20 for fractional clouds, 2^6 or 2^10 for whole-number ones) and, for the
+            # uniformity clause, the upper end of the sample sizes (own stream: the other choices stay what they were)
+            xrng = R.rng(9, k)
+            skew_bits = int(xrng.choice([6, 10]))
+            if ns == 10000 and xrng.integers(3) == 0:
+                ns = 100000; c.update(n=ns)
+            P = cloud(rng, d, ckind, whole, skew_bits)
             if whole and not full_dim(P):
-                whole = False; P = cloud(rng, d, ckind, False)
+                whole = False; P = cloud(rng, d, ckind, False, skew_bits)
+            if ckind == "skewed":
+                c.update(skew_bits=skew_bits); R.count("skew:2^%d" % (skew_bits * (1 if whole else 2)))
             c.update(P=P, whole=whole)
             # the same values in the representation the caller hands in (the reference below is the float64 C-ordered copy)
             Pg = as_given(vrng, P, R, "P", kinds=(("int",) if whole else ("fortran", "strided")))
